@@ -93,5 +93,13 @@ CHECKS["C07"] = dict(
          "eigensolver model), their exact trace is covered by C08",
     technique="concolic symbolic execution of the Python source with exact rational-function terms, algebraic generators (abs, sqrt) and "
               "uninterpreted log; z3 decides the residual equalities, pivot-order path flips and positivity side conditions")
-for _p in ["C05","C06","C09","C10","C11","C16","C17","C18","C19"]:
+CHECKS["C11"] = dict(
+    text="cholesky on A := L0 L0^H (dense, n <= 3, real and complex), positive Diagonal / ScalarMul, Identity, Kronecker (2-3 factors of unequal size), "
+         "BlockDiag with multiplicities and mutual nestings; plu on free symbolic dense A (n <= 3, every pivot order a solver-explored path) and on the "
+         "Identity / Diagonal / ScalarMul / Kronecker / BlockDiag rules: z3 proves L L^H == M, P L U == M, triangularity, P P^T = I, that every square "
+         "root taken has a non-negative argument on the path, and the kinds of the returned operators (factor-wise structure) are checked",
+    note=_TB + "; dense positive definite inputs are generated from their Cholesky factor (onto)",
+    technique="concolic symbolic execution of the Python source on exact rational-function terms with sqrt generators and exact Cholesky / pivoted-LU "
+              "stand-ins; z3 decides residuals, pivot-order flips and sqrt-domain obligations")
+for _p in ["C05","C06","C09","C10","C16","C17","C18","C19"]:
     NA[_p] = "check under construction in this session (not yet registered); see DESIGN.md section 5 for the plan"
